@@ -293,6 +293,11 @@ class TypeEnv:
                 env[arg.arg] = ty("type:" + fn.cls.qualname)
             else:
                 env[arg.arg] = self.ann(fn.module, arg.annotation, fn.cls)
+                if fn.name == "__call__" and fn.module.name.startswith("jsonpath.function_extensions") and env[arg.arg] is not None and not (
+                        env[arg.arg].names & {"NodeList", "jsonpath.match.NodeList"}):
+                    # an argument of a filter function is whatever the query and the document supply: the
+                    # annotation of a value-typed parameter (`t: str`) is a wish, nothing enforces it
+                    env[arg.arg] = None
         if a.vararg:
             et = self.ann(fn.module, a.vararg.annotation, fn.cls)
             env[a.vararg.arg] = Ty(frozenset({"tuple"}), et)
@@ -555,6 +560,15 @@ class TypeEnv:
                 inner = self.expr_type(fn, e.args[0], env)
                 name = {"sorted": "list", "iter": "Iterator", "reversed": "Iterator"}.get(fname, fname)
                 return Ty(frozenset({name}), inner.elem if inner else None)
+            if fname in ("sum", "min", "max") and len(e.args) == 1 and not e.keywords:
+                # numbers in, a number out (`sum(1 for p in params if ...)`): the sum of nothing is the int 0
+                inner = self.expr_type(fn, e.args[0], env)
+                el = inner.elem if inner else None
+                if el is not None and el.names and el.names <= {"int", "bool"}:
+                    return ty("int")
+                if el is not None and el.names and el.names <= {"int", "bool", "float"}:
+                    return Ty(frozenset({"int", "float"})) if fname == "sum" else el
+                return None
             if fname == "next" and e.args:
                 inner = self.expr_type(fn, e.args[0], env)
                 return inner.elem if inner else None
